@@ -559,7 +559,10 @@ static bool explore(RunState &rs, int prog, int bound, int max_violations) {
         Prefix nxt;
         bool more = t.mode == MODE_SUBTREE && next_prefix(sh.slot.rec, t.floor, t.bound, nxt);
         std::string tail = read_tail(g_logdir + "/w" + std::to_string(k) + ".err", 6000);
-        if (is_violation_outcome(outcome) && g_suite.relevant && !g_suite.relevant(outcome, msg, tail)) {
+        // a memory fault (SIGSEGV, SIGBUS, SIGFPE, SIGILL) in a legal scenario leaves no property standing: it is never "somebody else's" outcome
+        // (aborts - assertions of the code under test, sanitizer reports - are attributed by the suite)
+        bool hard_fault = outcome == VS_OUT_CRASH && (sig == SIGSEGV || sig == SIGBUS || sig == SIGFPE || sig == SIGILL);
+        if (is_violation_outcome(outcome) && g_suite.relevant && !hard_fault && !g_suite.relevant(outcome, msg, tail)) {
             std::string key = std::string(outcome_name(outcome)) + ": " + msg.substr(0, msg.find(';'));
             if (outcome == VS_OUT_CRASH) { size_t a = tail.find("Assertion"); if (a != std::string::npos) key += " " + tail.substr(a, tail.find('\n', a) - a); }
             rs.foreign[key]++;
